@@ -22,6 +22,15 @@ func (q *publishQueue) ticket() uint64 {
 	return t
 }
 
+// issued returns the number of tickets handed out so far: every write that was committed before the call holds a
+// smaller ticket, every later one a ticket from this number on. Call this while holding (at least) the read lock that
+// excludes commits.
+func (q *publishQueue) issued() uint64 {
+	q.mu.Lock()
+	defer q.mu.Unlock()
+	return q.next
+}
+
 // wait blocks until it is the turn of ticket t.
 func (q *publishQueue) wait(t uint64) {
 	q.mu.Lock()
@@ -42,4 +51,20 @@ func (q *publishQueue) done() {
 	if q.cond != nil {
 		q.cond.Broadcast()
 	}
+}
+
+// published is what a Collection puts on its bus: a change together with its ticket, i.e. its place in the order of
+// commits. A subscriber uses the ticket to skip the events of writes that its seed already reflects.
+type published struct {
+	change *CollectionChange
+	ticket uint64
+}
+
+// unpublished returns the change carried by a bus event and whether a subscriber whose seed reflects every write with
+// a ticket below reflected must skip it.
+func unpublished(event any, reflected uint64) (change *CollectionChange, skip bool) {
+	if p, ok := event.(published); ok {
+		return p.change, p.ticket < reflected
+	}
+	return event.(*CollectionChange), false
 }
